@@ -190,8 +190,22 @@ def build_program(name, cc, lib_cflags, extra_units, link_flags, out_name):
 def asan_runtime():
     return run(['clang', '-print-file-name=libclang_rt.asan-x86_64.so']).strip()
 
+def symbolizer():
+    """llvm-symbolizer hangs at start-up (futex wait, for ever) when the ASan runtime is LD_PRELOADed into it -- which it is in every child of
+    a sanitised python: each sanitizer report then waited for its time-out and left a 43 MB orphan behind.  drv/symwrap.c drops the preload
+    and execs the real tool; the file name keeps the prefix by which the runtime recognises the tool's protocol."""
+    out = os.path.join(BUILD, 'tools', 'llvm-symbolizer-nopreload')
+    src = os.path.join(DRV, 'symwrap.c')
+    if not (os.path.exists(out) and os.path.getmtime(out) >= os.path.getmtime(src)):
+        os.makedirs(os.path.dirname(out), exist_ok=True)
+        tmp = '%s.%d' % (out, os.getpid())
+        run(['gcc', '-O1', '-o', tmp, src])
+        os.replace(tmp, out)
+    return out
+
 def setup():
     os.makedirs(BUILD, exist_ok=True)
+    symbolizer()
     build('rel', quiet=False)
     # vector gate of all reference models
     ok = True
